@@ -35,9 +35,13 @@ const (
 	VString = "string"
 	VBytes  = "bytes" // uncomparable
 	VStruct = "struct"
+	VLong   = "long" // strings whose marshaled length sits on the length-prefix boundaries (127/128/129, 255/256, 16384)
 )
 
-var ValKinds = []string{VInt, VString, VBytes, VStruct}
+var ValKinds = []string{VInt, VString, VBytes, VStruct, VLong}
+
+// longLens are marshaled lengths (JSON string incl. quotes) of the "long" values.
+var longLens = []int{125, 126, 127, 128, 129, 130, 256, 16384}
 
 // LK is a user key type: rank K, layer L (the same K always carries the same L within a case).
 type LK struct {
@@ -315,7 +319,7 @@ func (c Config) ZeroVal() interface{} {
 	switch c.Val {
 	case VInt:
 		return int(0)
-	case VString:
+	case VString, VLong:
 		return ""
 	case VBytes:
 		return []byte{}
@@ -332,6 +336,19 @@ func (c Config) MakeVal(n int) interface{} {
 		return n
 	case VString:
 		return fmt.Sprintf("v%d", n)
+	case VLong:
+		if n < 0 {
+			n = -n
+		}
+		l := longLens[n%len(longLens)] - 2
+		b := make([]byte, l)
+		for i := range b {
+			b[i] = byte('a' + n%26)
+		}
+		// distinct value numbers must give distinct values even when they share a length
+		tag := fmt.Sprintf("%d.", n)
+		copy(b, tag)
+		return string(b)
 	case VBytes:
 		return []byte{byte(n), byte(n >> 8), 'x'}
 	case VStruct:
@@ -467,13 +484,25 @@ func (c Config) buildPool() []interface{} {
 		}
 		panic("bad key kind")
 	}
+	var out []interface{}
+	if c.Key == KString {
+		// keys whose marshaled length sits on the varint boundaries of the binary format
+		for _, l := range []int{127, 128, 129, 256} {
+			b := make([]byte, l-2)
+			for i := range b {
+				b[i] = 'L'
+			}
+			copy(b, fmt.Sprintf("long%d-", l))
+			out = append(out, string(b))
+		}
+	}
 	want := map[uint8]int{0: 22, 1: 10, 2: 5, 3: 3}
 	total := 0
 	for _, n := range want {
 		total += n
 	}
 	got := map[uint8]int{}
-	var out []interface{}
+	total += len(out)
 	// high layers are rare at large branch factors; the search is capped
 	for i := 0; i < 40000 && len(out) < total; i++ {
 		k := mk(i)
